@@ -146,3 +146,465 @@ class DiagonalShape(_Sig):
 
 
 KERNELS.append(DiagonalShape())
+
+
+# ------------------------------------------------------------------------------------------------------------------------------------------
+# further static-shape rules (numpy's documented shape rules as specifications)
+
+def _tensor_obj(name):
+    return SObj(z3.Const(name, Obj))
+
+
+SHAPE = lambda t: uf("attr_shape", Obj, Obj)(t)  # noqa  (the engine's reading of `.shape` on an opaque object)
+SEQ_LEN = lambda o: uf("seq_len", Obj, I)(o)  # noqa
+SEQ_ARR = lambda o: uf("seq_arr_int", Obj, z3.ArraySort(I, I))(o)  # noqa
+NDIM = lambda t: uf("attr_ndim", Obj, I)(t)  # noqa
+
+
+class ConcatenateShape(_Sig):
+    id = "C01.P.shape_concatenate"
+    qual = "concatenate/inner"
+    allowed_raises = ("ValueError", "IndexError")
+    describe = ("static shape of concatenate(xs, axis): the shape of xs[0] with the entry at the normalised axis replaced by the sum of all xs[i].shape[axis]; "
+                "ValueError iff the axis is out of range for xs[0]; the wrapped function receives xs and the caller's keywords unchanged")
+
+    def setup(self, eng, bound=None):
+        self.common(eng)
+        m = self.m = z3.Int("n_tensors")
+        xs = self.xs = z3.Array("xs", I, Obj)
+        ax = self.ax = z3.Int("axis")
+        eng.int_attrs = set(eng.int_attrs) | {"ndim"}
+        eng.seq_attrs = dict(eng.seq_attrs, shape="int")
+        k = z3.Int("k")
+        # type invariant of tensors (is_valid): ndim == len(shape); all operands have the rank of xs[0] (numpy's own precondition for concatenate)
+        r0 = NDIM(xs[0])
+        pre = [m >= 1, z3.ForAll([k], z3.Implies(z3.And(0 <= k, k < m), z3.And(NDIM(xs[k]) == SEQ_LEN(SHAPE(xs[k])), NDIM(xs[k]) == r0))), r0 >= 0]
+        env = {"xs": SSeq(xs, m, "obj", "list"), "kwargs": SDict({"axis": SInt(ax)}), "op": eng.contracts["op"], "argname_axis": SConc("axis")}
+        return env, pre, {}
+
+    def post(self, eng, out, p):
+        xs, m, ax = self.xs, self.m, self.ax
+        r0 = NDIM(xs[0])
+        na = z3.If(ax < 0, ax + r0, ax)
+        inr = z3.And(0 <= na, na < r0)
+        if isinstance(out, Raise):
+            if out.cls == "IndexError":
+                eng.oblige("post:no IndexError for operands of equal rank", p, z3.BoolVal(False), "post")
+            else:
+                eng.oblige("post:ValueError only for an axis out of range", p, z3.Not(inr), "post")
+            return
+        s = self.static_shape(eng, p)
+        if s is None:
+            eng.oblige("post:result is cast to a tensor with a static shape", p, z3.BoolVal(False), "post")
+            return
+        k = fresh("k")
+        s0 = SEQ_ARR(SHAPE(xs[0]))
+        eng.oblige("post:normal exit only for an axis in range", p, inr, "post")
+        eng.oblige("post:rank and all other dimensions are those of xs[0]", p, z3.And(s.n == r0, z3.ForAll([k], z3.Implies(z3.And(0 <= k, k < r0, k != na), z3.Select(s.arr, k) == z3.Select(s0, k)))), "post")
+        # the dimension at the axis: sum of the operands' lengths at the NORMALISED axis (ghost lemma L3 relates the engine's comprehension array to the spec array)
+        L = fresh("lens", z3.ArraySort(I, I))
+        q = p.fork()
+        q.pc.append(z3.ForAll([k], z3.Implies(z3.And(0 <= k, k < m), z3.Select(L, k) == z3.Select(SEQ_ARR(SHAPE(xs[k])), na))))
+        tot = eng.seqsum(L, m)
+        cand = [t for t in _seqsum_terms(z3.Select(s.arr, na), q)]
+        for arr_t, n_t in cand:
+            kk = fresh("kk")
+            eng.oblige("lemma-premise:L3:the summed lengths are the operands' lengths at the normalised axis", q, z3.And(n_t == m, z3.ForAll([kk], z3.Implies(z3.And(0 <= kk, kk < m), z3.Select(arr_t, kk) == z3.Select(L, kk)))), "post")
+            q.pc.append(eng.seqsum(arr_t, n_t) == tot)
+            eng.assumed.add("ghost lemma L3 seqsum_congr (lemmas/Lemmas.lean, checked by Lean 4 + Mathlib); premise is an obligation of this kernel")
+        eng.oblige("post:the dimension at the axis is the sum of all operands' lengths at that axis", q, z3.Select(s.arr, na) == tot, "post")
+        av, kw = p.ghost.get("op_called_with", ([], {}))
+        okc = len(av) == 1 and isinstance(av[0], SSeq) and z3.eq(av[0].arr, xs) and isinstance(kw.get("axis"), SInt)
+        eng.oblige("post:the wrapped function receives xs and the caller's axis", p, (kw["axis"].t == ax) if okc else z3.BoolVal(False), "post")
+
+    def twin(self, tier):
+        import itertools
+        import numpy as np
+        import einx._src.tracer as tracer
+        import einx._src.tracer.signature.classical.functions as Fn
+        n, fails = 0, []
+        T = tracer.signature.classical.Tensor
+        for r in range(1, 4):
+            for base in itertools.product([1, 2], repeat=r):
+                for axis in range(-r, r):
+                    for lens in ([3], [1, 2], [2, 2, 1]):
+                        shapes = [tuple(l if i == axis % r else b for i, b in enumerate(base)) for l in lens]
+                        n += 1
+                        got = Fn.concatenate(lambda xs, **kw: T(None, ()))( [T(None, s) for s in shapes], axis=axis)
+                        exp = np.concatenate([np.zeros(s) for s in shapes], axis=axis).shape
+                        if tuple(got.shape) != tuple(exp):
+                            fails.append({"detail": f"signature concatenate(shapes={shapes}, axis={axis}): static shape {tuple(got.shape)}, numpy gives {exp}"})
+        return n, fails[:3]
+
+
+def _seqsum_terms(t, p):
+    """the (array, length) arguments of every seqsum application inside term t (after looking through the path's equalities is not needed: the static shape is a Store chain)"""
+    out, todo, seen = [], [t], set()
+    while todo:
+        e = todo.pop()
+        if e.get_id() in seen:
+            continue
+        seen.add(e.get_id())
+        if z3.is_app(e) and e.decl().name() == "seqsum":
+            out.append((e.arg(0), e.arg(1)))
+        todo.extend(e.children())
+    return out
+
+
+KERNELS.append(ConcatenateShape())
+
+
+class _ReduceBase(_Sig):
+    qual = "reduce/inner"
+    allowed_raises = ()
+    naxes = None  # None: axis absent; 0: axis is an int; k>0: axis is a k-tuple
+    keep = None  # None: keepdims absent; True/False: given
+
+    def setup(self, eng, bound=None):
+        self.common(eng)
+        n = self.n
+        x = SRec("tensor", ndim=SInt(n))
+        kw = {}
+        pre = [n >= 0]
+        self.axes = []
+        if self.naxes == 0:
+            a = z3.Int("axis")
+            self.axes = [a]
+            kw["axis"] = SInt(a)
+        elif self.naxes:
+            self.axes = [z3.Int(f"axis{i}") for i in range(self.naxes)]
+            kw["axis"] = STup([SInt(a) for a in self.axes])
+        for a in self.axes:
+            pre.append(z3.And(0 <= a, a < n))  # call sites pass non-negative positions (decomposednamedtensor_from_classical.reduce: indices of marked axes)
+        if len(self.axes) > 1:
+            pre.append(z3.Distinct(*self.axes))
+        if self.keep is not None:
+            kw["keepdims"] = SBool(self.keep)
+        if self.naxes is None:
+            # axes = list(range(ndim)) has symbolic length: loop 0 (`shape[a] = 1`) and loop 1 (`del shape[a]`, descending) carry invariants
+            def inv_keep(e, p, i):
+                shp = e.as_seq(p.lookup("shape"), p)
+                k = fresh("k")
+                return z3.And(shp.n == n, z3.ForAll([k], z3.Implies(z3.And(0 <= k, k < n), z3.Select(shp.arr, k) == z3.If(k < i, 1, z3.Select(self.sh, k)))))
+
+            def inv_del(e, p, i):
+                return e.as_seq(p.lookup("shape"), p).n == n - i
+
+            eng.invariants[0], eng.invariants[1] = inv_keep, inv_del
+        env = {"x": x, "kwargs": SDict(kw), "op": eng.contracts["op"], "argname_axis": SConc("axis"), "argname_keepdims": SConc("keepdims")}
+        return env, pre, {}
+
+    def post(self, eng, out, p):
+        if isinstance(out, Raise):
+            eng.oblige(f"post:no {out.cls} for in-range, pairwise distinct axes", p, z3.BoolVal(False), "post")
+            return
+        s = self.static_shape(eng, p)
+        if s is None:
+            eng.oblige("post:result is cast to a tensor with a static shape", p, z3.BoolVal(False), "post")
+            return
+        n, sh = self.n, self.sh
+        k = fresh("k")
+        reduced = (lambda t: z3.BoolVal(True)) if self.naxes is None else (lambda t: z3.Or(*[t == a for a in self.axes]))
+        if self.keep:
+            eng.oblige("post:keepdims: same rank, reduced axes have length 1, the others keep their length", p,
+                       z3.And(s.n == n, z3.ForAll([k], z3.Implies(z3.And(0 <= k, k < n), z3.Select(s.arr, k) == z3.If(reduced(k), 1, z3.Select(sh, k))))), "post")
+        elif self.naxes is None:
+            eng.oblige("post:full reduction gives a scalar shape ()", p, s.n == 0, "post")
+        else:
+            m = len(self.axes)
+            # position k of the result is original position k + #{reduced axes a with a - #{reduced b < a} <= k}: spelled out for the (concrete) number of reduced axes
+            def rank_below(a):
+                return z3.Sum([z3.If(b < a, 1, 0) for b in self.axes]) if self.axes else z3.IntVal(0)
+
+            def src(kk):
+                return kk + z3.Sum([z3.If(a - rank_below(a) <= kk, 1, 0) for a in self.axes])
+
+            eng.oblige("post:rank drops by the number of reduced axes", p, s.n == n - m, "post")
+            eng.oblige("post:the remaining axes keep their lengths and their order", p, z3.ForAll([k], z3.Implies(z3.And(0 <= k, k < n - m), z3.Select(s.arr, k) == z3.Select(sh, src(k)))), "post")
+        av, kw = p.ghost.get("op_called_with", ([], {}))
+        eng.oblige("post:the wrapped function receives x and the caller's keywords unchanged", p, z3.BoolVal(len(av) == 1 and sorted(kw) == sorted(k_ for k_ in (["axis"] if self.naxes is not None else []) + (["keepdims"] if self.keep is not None else []))), "post")
+
+    def twin(self, tier):
+        import itertools
+        import numpy as np
+        import einx._src.tracer as tracer
+        import einx._src.tracer.signature.classical.functions as Fn
+        T = tracer.signature.classical.Tensor
+        n, fails = 0, []
+        f = Fn.reduce(lambda x, **kw: T(None, ()))
+        for r in range(0, 5):
+            shape = tuple(range(2, 2 + r))
+            for m in range(0, r + 1):
+                for axes in itertools.permutations(range(r), m):
+                    for keep in (None, False, True):
+                        for form in ("tuple", "int", "none"):
+                            if form == "int" and m != 1 or form == "none" and m != r:
+                                continue
+                            kw = {}
+                            if form == "tuple":
+                                kw["axis"] = tuple(axes)
+                            elif form == "int":
+                                kw["axis"] = axes[0]
+                            if keep is not None:
+                                kw["keepdims"] = keep
+                            n += 1
+                            got = tuple(f(T(None, shape), **kw).shape)
+                            exp = np.sum(np.zeros(shape), **kw).shape
+                            if got != tuple(exp):
+                                fails.append({"detail": f"signature reduce(shape={shape}, {kw}): static shape {got}, numpy gives {tuple(exp)}"})
+        return n, fails[:3]
+
+
+def _mk_reduce(naxes, keep, tag):
+    cls = type(f"ReduceShape_{tag}", (_ReduceBase,), {"naxes": naxes, "keep": keep, "id": f"C01.P.shape_reduce[{tag}]",
+               "describe": f"static shape of reduce(x, {tag}) = numpy's rule (reduced axes removed, or kept with length 1 under keepdims), for every rank; in-range distinct non-negative axes (call-site precondition)"})
+    return cls()
+
+
+for _na, _kp, _tag in [(None, None, "all"), (None, True, "all,keepdims"), (0, None, "axis=int"), (0, True, "axis=int,keepdims"), (1, False, "axis=1-tuple"), (2, None, "axis=2-tuple"),
+                       (2, True, "axis=2-tuple,keepdims"), (3, False, "axis=3-tuple"), (3, True, "axis=3-tuple,keepdims")]:
+    KERNELS.append(_mk_reduce(_na, _kp, _tag))
+
+
+class _ElementwiseBase(_Sig):
+    qual = "elementwise/inner"
+    allowed_raises = ("ValueError",)
+    kinds = ("t", "t")  # per operand: 't' tensor of symbolic rank, 's' Python scalar (no .shape)
+
+    def setup(self, eng, bound=None):
+        self.common(eng)
+        self.ranks, self.shapes, xs, pre = [], [], [], []
+        k = z3.Int("k")
+        for i, kd in enumerate(self.kinds):
+            if kd == "t":
+                r, a = z3.Int(f"rank{i}"), z3.Array(f"shape{i}", I, I)
+                self.ranks.append(r)
+                self.shapes.append(a)
+                xs.append(SRec("tensor", shape=SSeq(a, r, "int", "tuple")))
+                pre += [r >= 0, z3.ForAll([k], z3.Implies(z3.And(0 <= k, k < r), a[k] >= 1))]
+            else:
+                self.ranks.append(None)
+                self.shapes.append(None)
+                xs.append(SInt(z3.Int(f"scalar{i}")))
+        ts = [i for i, kd in enumerate(self.kinds) if kd == "t"]
+        self.ts = ts
+        R = self.R = (ts and self._max([self.ranks[i] for i in ts])) if ts else None
+        # numpy's own precondition: aligned dimensions are equal or 1 (broadcast-compatible operands)
+        for x_ in range(len(ts)):
+            for y_ in range(x_ + 1, len(ts)):
+                i, j = ts[x_], ts[y_]
+                di, dj = self.dim(i, k), self.dim(j, k)
+                pre.append(z3.ForAll([k], z3.Implies(z3.And(0 <= k, k < R), z3.Or(di == dj, di == 1, dj == 1))))
+
+        def c_maximum(e, p, av, kw):
+            a, b = (e.as_seq(v, p) for v in av)
+            e.oblige("callee-pre:np.maximum on shape vectors of equal length", p, a.n == b.n, "callee-pre")
+            r = fresh("max", z3.ArraySort(I, I))
+            p.pc.append(e.forall(0, a.n, lambda q: z3.Select(r, q) == z3.If(z3.Select(a.arr, q) >= z3.Select(b.arr, q), z3.Select(a.arr, q), z3.Select(b.arr, q))))
+            return SSeq(r, a.n, "int", "tuple")
+
+        eng.contracts["np.maximum"] = SContract(c_maximum, "np.maximum (element-wise maximum of equally long vectors)")
+
+        # while-loops 1 and 2 (source order; loop 0 is the for over the operands): left-pad the shorter shape with ones
+        def pad_inv(name, other, ordn):
+            def inv(e, p):
+                cur, oth = e.as_seq(p.lookup(name), p), e.as_seq(p.lookup(other), p)
+                ent = e.as_seq(p.ghost[f"entry{ordn}"][name], p)
+                j = cur.n - ent.n
+                t = fresh("t")
+                tgt = z3.If(ent.n >= oth.n, ent.n, oth.n)
+                return z3.And(j >= 0, cur.n <= tgt, z3.ForAll([t], z3.Implies(z3.And(0 <= t, t < cur.n), z3.Select(cur.arr, t) == z3.If(t < j, 1, z3.Select(ent.arr, t - j)))))
+            return inv
+
+        eng.invariants[1] = pad_inv("shape", "shape2", 1)
+        eng.invariants[2] = pad_inv("shape2", "shape", 2)
+        env = {"xs": STup(xs), "op": eng.contracts["op"], "num_outputs": SInt(1)}
+        return env, pre, {}
+
+    @staticmethod
+    def _max(ts):
+        r = ts[0]
+        for t in ts[1:]:
+            r = z3.If(t > r, t, r)
+        return r
+
+    def dim(self, i, k):
+        """length of operand i at right-aligned position k of the common rank R (1 where the operand has no such axis)"""
+        off = self.R - self.ranks[i]
+        return z3.If(k - off >= 0, z3.Select(self.shapes[i], k - off), 1)
+
+    def post(self, eng, out, p):
+        if isinstance(out, Raise):
+            eng.oblige("post:ValueError only if no operand has a shape", p, z3.BoolVal(not self.ts), "post")
+            return
+        s = self.static_shape(eng, p)
+        if s is None:
+            eng.oblige("post:result is cast to a tensor with a static shape", p, z3.BoolVal(False), "post")
+            return
+        if not self.ts:
+            eng.oblige("post:normal exit needs an operand with a shape", p, z3.BoolVal(False), "post")
+            return
+        k = fresh("k")
+        eng.oblige("post:rank of the result is the largest operand rank", p, s.n == self.R, "post")
+        eng.oblige("post:every result dimension is the maximum of the right-aligned operand dimensions (numpy broadcasting)", p,
+                   z3.ForAll([k], z3.Implies(z3.And(0 <= k, k < self.R), z3.Select(s.arr, k) == self._max([self.dim(i, k) for i in self.ts]))), "post")
+        av, kw = p.ghost.get("op_called_with", ([], {}))
+        eng.oblige("post:the wrapped function receives all operands", p, z3.BoolVal(len(av) == len(self.kinds) and not kw), "post")
+
+    def twin(self, tier):
+        import itertools
+        import numpy as np
+        import einx._src.tracer as tracer
+        import einx._src.tracer.signature.classical.functions as Fn
+        T = tracer.signature.classical.Tensor
+        f = Fn.elementwise(lambda *xs: T(None, ()))
+        n, fails = 0, []
+        shapes = [s for r in range(0, 4) for s in itertools.product([1, 2, 3], repeat=r)]
+        pool = shapes if tier != "quick" else shapes[:: 3]
+        for a in pool:
+            for b in pool:
+                try:
+                    exp = np.broadcast_shapes(a, b)
+                except ValueError:
+                    continue
+                n += 1
+                got = tuple(int(v) for v in f(T(None, a), T(None, b)).shape)
+                if got != tuple(exp):
+                    fails.append({"detail": f"signature elementwise(shapes {a}, {b}): static shape {got}, numpy broadcasting gives {tuple(exp)}"})
+                got = tuple(int(v) for v in f(T(None, a), 2.0, T(None, b)).shape)
+                if got != tuple(exp):
+                    fails.append({"detail": f"signature elementwise(shapes {a}, scalar, {b}): static shape {got}, numpy broadcasting gives {tuple(exp)}"})
+        return n, fails[:3]
+
+
+for _kinds in [("t",), ("t", "t"), ("t", "s"), ("s", "t"), ("t", "t", "t"), ("s", "s")]:
+    KERNELS.append(type("ElementwiseShape_" + "".join(_kinds), (_ElementwiseBase,), {"kinds": _kinds, "id": f"C01.P.shape_elementwise[{','.join('tensor' if q == 't' else 'scalar' for q in _kinds)}]",
+                        "describe": "static shape of an element-wise call = numpy's broadcast shape of the operands that have a shape (right-aligned maximum), for all ranks; ValueError iff no operand has a shape"})())
+
+
+def _sym_tensor(name, with_ndim=True):
+    r, a = z3.Int(f"rank_{name}"), z3.Array(f"shape_{name}", I, I)
+    f = {"shape": SSeq(a, r, "int", "tuple")}
+    if with_ndim:
+        f["ndim"] = SInt(r)
+    return SRec("tensor", **f), r, a
+
+
+class MatmulShape(_Sig):
+    id = "C01.P.shape_matmul"
+    qual = "matmul/matmul"
+    allowed_raises = ("ValueError",)
+    describe = ("static shape of matmul(x, y) for operands of equal rank >= 2: element-wise maximum of the batch dimensions, then (x.shape[-2], y.shape[-1]) (numpy's rule for "
+                "broadcast-compatible batches); ValueError iff the ranks differ or are below 2")
+
+    def setup(self, eng, bound=None):
+        self.common(eng)
+        x, self.rx, self.ax = _sym_tensor("x")
+        y, self.ry, self.ay = _sym_tensor("y")
+        eng.contracts["np.maximum"] = SContract(_c_maximum, "np.maximum (element-wise maximum of equally long vectors)")
+        return {"x": x, "y": y, "op": eng.contracts["op"]}, [self.rx >= 0, self.ry >= 0], {}
+
+    def post(self, eng, out, p):
+        rx, ry = self.rx, self.ry
+        if isinstance(out, Raise):
+            eng.oblige("post:ValueError only for operands of different rank or rank < 2", p, z3.Or(rx != ry, rx < 2, ry < 2), "post")
+            return
+        s = self.static_shape(eng, p)
+        if s is None:
+            eng.oblige("post:result is cast to a tensor with a static shape", p, z3.BoolVal(False), "post")
+            return
+        k = fresh("k")
+        eng.oblige("post:normal exit only for equal ranks >= 2", p, z3.And(rx == ry, rx >= 2), "post")
+        eng.oblige("post:rank is kept; batch dimensions are the element-wise maximum; the last two are x.shape[-2], y.shape[-1]", p,
+                   z3.And(s.n == rx, z3.Select(s.arr, rx - 2) == z3.Select(self.ax, rx - 2), z3.Select(s.arr, rx - 1) == z3.Select(self.ay, ry - 1),
+                          z3.ForAll([k], z3.Implies(z3.And(0 <= k, k < rx - 2), z3.Select(s.arr, k) == z3.If(z3.Select(self.ax, k) >= z3.Select(self.ay, k), z3.Select(self.ax, k), z3.Select(self.ay, k))))), "post")
+
+    def twin(self, tier):
+        import itertools
+        import numpy as np
+        import einx._src.tracer as tracer
+        import einx._src.tracer.signature.classical.functions as Fn
+        T = tracer.signature.classical.Tensor
+        f = Fn.matmul(lambda x, y: T(None, ()))
+        n, fails = 0, []
+        for r in range(2, 5):
+            for bx in itertools.product([1, 3], repeat=r - 2):
+                for by in itertools.product([1, 3], repeat=r - 2):
+                    sx, sy = bx + (2, 4), by + (4, 5)
+                    n += 1
+                    got = tuple(int(v) for v in f(T(None, sx), T(None, sy)).shape)
+                    exp = np.matmul(np.zeros(sx), np.zeros(sy)).shape
+                    if got != tuple(exp):
+                        fails.append({"detail": f"signature matmul(shapes {sx}, {sy}): static shape {got}, numpy gives {tuple(exp)}"})
+        return n, fails[:3]
+
+
+def _c_maximum(e, p, av, kw):
+    a, b = (e.as_seq(v, p) for v in av)
+    e.oblige("callee-pre:np.maximum on shape vectors of equal length", p, a.n == b.n, "callee-pre")
+    r = fresh("max", z3.ArraySort(I, I))
+    p.pc.append(e.forall(0, a.n, lambda q: z3.Select(r, q) == z3.If(z3.Select(a.arr, q) >= z3.Select(b.arr, q), z3.Select(a.arr, q), z3.Select(b.arr, q))))
+    return SSeq(r, a.n, "int", "tuple")
+
+
+class TakeShape(_Sig):
+    qual = "take/inner"
+    allowed_raises = ("ValueError",)
+    with_axis, idx_has_shape = True, True
+
+    def setup(self, eng, bound=None):
+        self.common(eng)
+        x, self.rx, self.ax = _sym_tensor("x")
+        if self.idx_has_shape:
+            ind, self.ri, self.ai = _sym_tensor("indices", with_ndim=False)
+        else:
+            ind, self.ri, self.ai = SInt(z3.Int("index")), z3.IntVal(0), None
+        self.axis = z3.Int("axis")
+        kw = {"axis": SInt(self.axis)} if self.with_axis else {}
+        return {"x": x, "indices": ind, "kwargs": SDict(kw), "op": eng.contracts["op"], "argname_axis": SConc("axis")}, [self.rx >= 0, self.ri >= 0], {}
+
+    def post(self, eng, out, p):
+        rx, ri, a = self.rx, self.ri, self.axis
+        na = z3.If(a < 0, a + rx, a)
+        inr = z3.And(0 <= na, na < rx)
+        if isinstance(out, Raise):
+            eng.oblige("post:ValueError only for an axis out of range", p, z3.Not(inr) if self.with_axis else z3.BoolVal(False), "post")
+            return
+        s = self.static_shape(eng, p)
+        if s is None:
+            eng.oblige("post:result is cast to a tensor with a static shape", p, z3.BoolVal(False), "post")
+            return
+        k = fresh("k")
+        if not self.with_axis:
+            eng.oblige("post:without axis the result has the shape of the indices (flattened take)", p, z3.And(s.n == ri, z3.ForAll([k], z3.Implies(z3.And(0 <= k, k < ri), z3.Select(s.arr, k) == z3.Select(self.ai, k)))), "post")
+            return
+        eng.oblige("post:normal exit only for an axis in range", p, inr, "post")
+        idx_dim = (lambda t: z3.Select(self.ai, t)) if self.ai is not None else (lambda t: z3.IntVal(0))
+        eng.oblige("post:the axis is replaced by the shape of the indices; the dimensions before and after it are kept (numpy's rule)", p,
+                   z3.And(s.n == rx - 1 + ri, z3.ForAll([k], z3.Implies(z3.And(0 <= k, k < rx - 1 + ri),
+                          z3.Select(s.arr, k) == z3.If(k < na, z3.Select(self.ax, k), z3.If(k < na + ri, idx_dim(k - na), z3.Select(self.ax, k - ri + 1)))))), "post")
+
+    def twin(self, tier):
+        import itertools
+        import numpy as np
+        import einx._src.tracer as tracer
+        import einx._src.tracer.signature.classical.functions as Fn
+        T = tracer.signature.classical.Tensor
+        f = Fn.take(lambda x, i, **kw: T(None, ()))
+        n, fails = 0, []
+        for r in range(1, 4):
+            sx = tuple(range(2, 2 + r))
+            for si in [(), (3,), (2, 3)]:
+                for axis in list(range(-r, r)):
+                    n += 1
+                    got = tuple(int(v) for v in f(T(None, sx), T(None, si), axis=axis).shape)
+                    exp = np.take(np.zeros(sx), np.zeros(si, dtype=int), axis=axis).shape
+                    if got != tuple(exp):
+                        fails.append({"detail": f"signature take(shape {sx}, indices {si}, axis={axis}): static shape {got}, numpy gives {tuple(exp)}"})
+        return n, fails[:3]
+
+
+for _wa, _ih, _tag in [(True, True, "axis,tensor-indices"), (True, False, "axis,scalar-index"), (False, True, "no-axis")]:
+    KERNELS.append(type("TakeShape_" + _tag, (TakeShape,), {"with_axis": _wa, "idx_has_shape": _ih, "id": f"C01.P.shape_take[{_tag}]",
+                        "describe": "static shape of take(x, indices, axis) = x.shape[:axis] + indices.shape + x.shape[axis+1:] for every rank (numpy's rule); ValueError iff the axis is out of range"})())
+KERNELS.append(MatmulShape())
